@@ -534,8 +534,8 @@ def machine_case(cid, root, cost, depth, stack, hc=0, meta=None, idx=None, via="
 class C04(Prop):
     id = "C04"
     title = "Every evaluation is bounded by the configured limits"
-    lean_modules = ["NV.C04.Props", "NV.C04.Top", "NV.C04.TopSizes", "NV.C04.Witness", "NV.C04.SpecTests"]
-    theorems = ["NV.C04.model_satisfies_spec", "NV.C04.eval_completes_below_budget", "NV.C04.exec_NE", "NV.C04.szCmd_satisfies_spec", "NV.C04.szCmdC_satisfies_spec", "NV.C04.exec_call_ok_unwound", "NV.C04.limit_error_not_swallowed", "NV.C04.limit_error_reaches_next_frame",
+    lean_modules = ["NV.C04.Props", "NV.C04.Top", "NV.C04.TopSizes", "NV.C04.Handler", "NV.C04.Witness", "NV.C04.SpecTests"]
+    theorems = ["NV.C04.handler_keeps_limit_state", "NV.C04.handler_keeps_limit_state_each", "NV.C04.model_satisfies_spec", "NV.C04.eval_completes_below_budget", "NV.C04.exec_NE", "NV.C04.szCmd_satisfies_spec", "NV.C04.szCmdC_satisfies_spec", "NV.C04.exec_call_ok_unwound", "NV.C04.limit_error_not_swallowed", "NV.C04.limit_error_reaches_next_frame",
                 "NV.C04.catch_reraises_limit_error", "NV.C04.eval_bounded", "NV.C04.eval_bounded_exact",
                 "NV.C04.eval_bounded_of_pos", "NV.C04.depth_bounded", "NV.C04.stack_checked_pushes_bounded",
                 "NV.C04.sizes_bounded", "NV.C04.replace_scan_in_bounds", "NV.C04.sprintf_bounded",
@@ -547,7 +547,8 @@ class C04(Prop):
     witness_theorems = ["NV.C04.eval_unbounded_at_zero_budget", "NV.C04.eval_bound_attained_through_safe_apply",
                         "NV.C04.sprintf_exceeds_small_limit", "NV.C04.array_size_wraps",
                         "NV.C04.buffer_size_wraps", "NV.C04.repeat_string_old_wraps",
-                        "NV.C04.compose_count_wraps_16", "NV.C04.save_variable_old_exceeds"]
+                        "NV.C04.compose_count_wraps_16", "NV.C04.save_variable_old_exceeds",
+                        "NV.C04.handler_lost_limit_state_before_fix"]
     consts = CONSTS
     const_headers = ["src/interpret.h", "lib/rc/rc.h", "lib/lpc/include/runtime_config.h", "lpc/array.h", "lpc/buffer.h",
                      "lpc/mapping.h", "src/stralloc.h", "src/backend.h"]
@@ -789,6 +790,8 @@ class C04(Prop):
         B.append(self.mk("b-hf-safe-spin-loop", Bk(4, A(S)), cost=2000, hc=2))
         B.append(self.mk("b-hf-safe-catch-spin", Q(A(C(S)), W(10)), cost=2000, hc=2))
         B.append(self.mk("b-hf-c-err", Q(C(E_), Q(A(E_), W(20))), hc=2))
+        B.append(self.mk("b-hf3-c2-spin", Q(C(C(S)), W(50)), hc=3))
+        B.append(self.mk("b-hf3-safe-spin", Q(A(S), W(10)), cost=2000, hc=3))
         B.append(self.mk("b-cb-c-spin", Bk(3, C(C(S)))))
         B.append(self.mk("b-c-cb-spin", C(Bk(2, S, 1))))
         B.append(self.mk("b-c-call-c-spin", C(F(2, C(F(1, S))))))
@@ -930,7 +933,7 @@ class C04(Prop):
                 continue
             if root.has(("A",)) and st["inf"] is False and rng.chance(1, 2):
                 continue
-            hc = rng.choice([1, 1, 2]) if rng.chance(1, 4) else 0   # 2: the handler completes a catch and then fails itself
+            hc = rng.choice([1, 1, 2, 3]) if rng.chance(1, 4) else 0   # 2: the handler completes a catch and then fails itself; 3: fails at once
             via = rng.weighted([("cfgint", 6), ("reconf", 2), ("setlimit", 1)])
             if rng.chance(1, 12):       # a budget that the driver clamps to 1
                 cost = rng.choice([0, -1, -3000]) if via != "setlimit" else rng.choice([-2, -3000, 4294967296])
